@@ -460,7 +460,53 @@ def _threads(ctx: Ctx, item):
     threads.decode_pass(ctx, "C09", *item, mode="encode")
 
 
+def lookup_name_messages(d):
+    """For every LOOKUP field of definition d and every entry of its table whose name is unique: a benign message in which that field is
+    given BY NAME (raw_value None). -> list of (field, name, code, message)"""
+    from nmea2000.message import NMEA2000Field, NMEA2000Message
+    m0 = gen.benign_message(d)
+    if m0 is None or len(m0.fields) != len(d.fields):
+        return []
+    out = []
+    for i, f in enumerate(d.fields):
+        if f.type != "LOOKUP" or f.match is not None or f.bits is None:
+            continue
+        table = canboat.db().lookups.get(f.lookup) or {}
+        names = {}
+        for k, name in table.items():
+            names.setdefault(name, []).append(k)
+        for name, ks in sorted(names.items(), key=lambda kv: kv[1][0]):
+            if len(ks) != 1 or ks[0] >= (1 << f.bits) - (2 if f.bits > 1 else 0) or not name:
+                continue
+            fl = [NMEA2000Field(id=x.id, name=x.name, value=(name if j == i else x.value), raw_value=(None if j == i else x.raw_value)) for j, x in enumerate(m0.fields)]
+            out.append((f, name, ks[0], NMEA2000Message(PGN=d.pgn, id=d.id, fields=fl, source=1, destination=255, priority=3)))
+    return out
+
+
+def _lookup_names(ctx: Ctx, keys):
+    """Every lookup field of every encodable definition given by each of its (unique) names: the code of THAT field's table is written."""
+    from nmea2000.encoder import NMEA2000Encoder
+    db = canboat.db()
+    n = 0
+    for key in keys:
+        d = db.by_key[key]
+        for f, name, code, m in lookup_name_messages(d):
+            data, err = encode(NMEA2000Encoder(), m)
+            ctx.count()
+            n += 1
+            case = {"lookup_name": key, "field": f.id, "name": name}
+            if data is None:
+                continue                    # refusing is allowed
+            u = (int.from_bytes(data, "little") >> f.offset_bits) & ((1 << f.bits) - 1)
+            if u != code:
+                ctx.report(f"C09|wrong-bits|LOOKUP|by_name|{key}/{f.id}", f"{f.id} given by name {name!r}: encoded as {u}, the field's table {f.lookup} says {code}", case)
+    ctx.nontrivial_extra += n
+    ctx.klass("lookup_fields_by_every_name", n)
+
+
 def run(ctx: Ctx):
+    encodable = [d.key for d in canboat.db().defs if d.encodable]
+    pmap(ctx, _lookup_names, [encodable[i::16] for i in range(16)])
     from .. import threads as _th
     tk = [d.key for d in _th.thread_definitions() if d.encodable]
     pmap(ctx, _threads, [(tk[i::16], 2 if ctx.quick else 30, 1000) for i in range(16) if tk[i::16]])
@@ -473,6 +519,11 @@ def run(ctx: Ctx):
 
 
 def replay(ctx: Ctx, case):
+    if "lookup_name" in case:
+        sub = Ctx(ctx.pid)
+        sub.known_open = {}
+        _lookup_names(sub, [case["lookup_name"]])
+        return [(b, v["what"], v["case"]) for b, v in sub.found.items() if v["case"].get("field") == case.get("field") and v["case"].get("name") == case.get("name")]
     if case.get("threads"):
         from .. import threads
         return threads.decode_replay("C09", case)
